@@ -107,6 +107,9 @@ func (p *Program) verifyFunc(fn *ssa.Function, ct *Contract, sweepOnly bool) (re
 	if ct != nil && ct.Opts["nosafety"] != "" {
 		ex.safety = false
 	}
+	if ct != nil && ct.Opts["elemptr"] != "" {
+		ex.allowEscapingElemPtr = true
+	}
 	defer func() {
 		if r := recover(); r != nil {
 			switch e := r.(type) {
